@@ -18,6 +18,7 @@
  *   IMPURE <v-at-L0> <v> <place>    result depends on address / alignment / surroundings
  *   REFDIFF <impl> <ref>            deterministic but not the published algorithm
  *   INCDIFF <split> <inc> <oneshot> crcinc only: incremental identity fails
+ * `mem32` runs the XXH32 branch of memhash_seed (memhash_narrow.c: a 32-bit build's choice).
  * For `spooky` both builds of spooky.c are run at every placement: the one /repo's
  * configuration selects (direct unaligned reads) and the strict-alignment variant
  * (spooky_noua.c); they must agree as well.
@@ -39,6 +40,7 @@
 #include <usual/hashing/memhash.h>
 
 void spookyhash_noua(const void *message, size_t length, uint64_t *hash1, uint64_t *hash2);
+uint32_t memhash_seed_narrow(const void *data, size_t len, uint32_t seed);
 
 #if defined(__SANITIZE_ADDRESS__)
 #include <sanitizer/asan_interface.h>
@@ -129,6 +131,9 @@ static struct Val f_xxh(const uint8_t *p, size_t n, const uint64_t *arg)
 { struct Val v = { xxhash(p, n, (uint32_t)arg[0]), 0 }; return v; }
 static struct Val f_mem(const uint8_t *p, size_t n, const uint64_t *arg)
 { struct Val v = { memhash_seed(p, n, (uint32_t)arg[0]), 0 }; return v; }
+
+static struct Val f_mem32(const uint8_t *p, size_t n, const uint64_t *arg)
+{ struct Val v = { memhash_seed_narrow(p, n, (uint32_t)arg[0]), 0 }; return v; }
 
 static struct Val r_crc(const uint8_t *p, size_t n, const uint64_t *arg)
 { struct Val v = { ref_crc32(p, n, (uint32_t)arg[0]), 0 }; return v; }
@@ -335,6 +340,8 @@ int main(int argc, char **argv)
 			run_op(K32, f_xxh, NULL, r_xxh, buf, blen, arg);
 		} else if (strcmp(w[0], "mem") == 0 && nw == 2 && hexnum(w[1], 8, &arg[0]) == 0) {
 			run_op(K32, f_mem, NULL, r_mem, buf, blen, arg);
+		} else if (strcmp(w[0], "mem32") == 0 && nw == 2 && hexnum(w[1], 8, &arg[0]) == 0) {
+			run_op(K32, f_mem32, NULL, r_xxh, buf, blen, arg);
 		} else {
 			printf("bad-op");
 		}
